@@ -96,8 +96,10 @@ def main():
         """returns None if ok/excluded, raises Violation if an unlisted violation"""
         try:
             info = fam.run(params)
-        except Inconclusive:
+        except Inconclusive as inc:
             out['inconclusive'] += 1
+            if len(out.setdefault('inconclusive_samples', [])) < 2:
+                out['inconclusive_samples'].append({'why': str(inc)[:200], 'params': params})
             if counting:
                 out['evaluations'] += 1
             return
